@@ -38,7 +38,11 @@ func (g *Gen) writeReplay(o *Oblig, dir, work, repo, verif, prop string) (string
 	}
 	reproduced := false
 	if o.fx != nil && (o.Status == "failed" || o.Status == "unknown") {
-		if r := g.replayOnRealCode(o, work, repo, verif); r != nil {
+		r := o.ReplayInfo
+		if r == nil {
+			r = g.replayOnRealCode(o, work, repo, verif)
+		}
+		if r != nil {
 			for k, v := range r {
 				rep[k] = v
 			}
